@@ -79,4 +79,223 @@ theorem hillValue_bounds (p : MetaParams ℝ) (h : Hill ℝ) (xs : List ℝ) :
     norm_num
     linarith
 
+/-! ## one variable: force = -dE/dx -/
+
+theorem sqSum_one (p : MetaParams ℝ) (h : Hill ℝ) (y c σ : ℝ)
+    (hp : p.per = [none]) (hc : h.centers = [c]) (hs : h.sigmas = [σ]) :
+    sqSum p h [y] = (y - c) * (y - c) / (σ * σ) := by
+  unfold sqSum
+  rw [hp, hc, hs]
+  simp [dist2S, pdiff, zero_lit]
+
+theorem hillsForce_one (p : MetaParams ℝ) (h : Hill ℝ) (x c σ : ℝ)
+    (hp : p.per = [none]) (hc : h.centers = [c]) (hs : h.sigmas = [σ]) :
+    hillsForce p [h] [x] 0 = h.w * hillValue p h [x] * (0.5 / (σ * σ)) * (2 * (x - c)) := by
+  rw [hillsForce_sum', hp]
+  have e2 : (2.0 : ℝ) = 2 := by norm_num
+  simp [hc, hs, dist2SGrad, pdiff, e2]
+
+theorem hill_force_deriv' (p : MetaParams ℝ) (h : Hill ℝ) (x : ℝ) (c σ : ℝ)
+    (hp : p.per = [none]) (hc : h.centers = [c]) (hs : h.sigmas = [σ])
+    (hin : (x - c) * (x - c) / (σ * σ) < 23) :
+    HasDerivAt (fun y => h.w * hillValue p h [y]) (- hillsForce p [h] [x] 0) x := by
+  have hg : HasDerivAt (fun y : ℝ => (y - c) * (y - c) / (σ * σ))
+      ((1 * (x - c) + (x - c) * 1) / (σ * σ)) x :=
+    (((hasDerivAt_id x).sub_const c).mul ((hasDerivAt_id x).sub_const c)).div_const _
+  have hcont : ContinuousAt (fun y : ℝ => (y - c) * (y - c) / (σ * σ)) x := hg.continuousAt
+  have hev : ∀ᶠ y in nhds x, (y - c) * (y - c) / (σ * σ) < 23 := hcont.eventually (gt_mem_nhds hin)
+  have hval : ∀ y, (y - c) * (y - c) / (σ * σ) < 23 →
+      hillValue p h [y] = Real.exp (-0.5 * ((y - c) * (y - c) / (σ * σ))) := by
+    intro y hy
+    rw [hillValue_eq, sqSum_one p h y c σ hp hc hs, if_neg]
+    norm_num
+    linarith
+  have hE : HasDerivAt (fun y : ℝ => h.w * Real.exp (-0.5 * ((y - c) * (y - c) / (σ * σ))))
+      (h.w * (Real.exp (-0.5 * ((x - c) * (x - c) / (σ * σ))) *
+        (-0.5 * ((1 * (x - c) + (x - c) * 1) / (σ * σ))))) x :=
+    ((hg.const_mul (-0.5)).exp).const_mul h.w
+  have hcongr : (fun y => h.w * hillValue p h [y]) =ᶠ[nhds x]
+      (fun y : ℝ => h.w * Real.exp (-0.5 * ((y - c) * (y - c) / (σ * σ)))) := by
+    filter_upwards [hev] with y hy
+    rw [hval y hy]
+  refine (hE.congr_of_eventuallyEq hcongr).congr_deriv ?_
+  rw [hillsForce_one p h x c σ hp hc hs, hval x hin]
+  ring
+
+/-! ## enumeration of the grid -/
+section
+open Cv.C15
+
+theorem enumerate_ok (nx : List Int) : ∀ (fuel : Nat) (ix : List Int),
+    ∀ jx ∈ enumerate nx fuel ix, indexOk nx jx = true := by
+  intro fuel
+  induction fuel with
+  | zero => intro ix jx h; simp [enumerate] at h
+  | succ f ih =>
+    intro ix jx h
+    by_cases hok : indexOk nx ix = true
+    · simp only [enumerate, hok, if_true, List.mem_cons] at h
+      rcases h with rfl | h
+      · exact hok
+      · exact ih _ _ h
+    · simp [enumerate, hok] at h
+
+theorem flatMap_single {β γ : Type} (f : β → γ) (l : List β) :
+    (l.flatMap fun x => [f x]) = l.map f := by
+  induction l with
+  | nil => rfl
+  | cons x l ih => simp only [List.flatMap_cons, ih, List.map_cons, List.singleton_append]
+
+theorem allIndices_map_address (nx : List Int) (hne : nx ≠ []) (hpos : ∀ n ∈ nx, 0 < n) :
+    (allIndices nx).map (address 1 nx) = (List.range (ntOf 1 nx).toNat).map (fun (k : Nat) => (k : Int)) := by
+  have hp := ntOf_pos nx hpos
+  have hN : ntOf 1 nx = ((ntOf 1 nx).toNat : Int) := by omega
+  have := enumerate_from nx hne (ntOf 1 nx).toNat hN ((ntOf 1 nx).toNat + 1) (nx.map (fun _ => 0)) 0
+    (ntOf 1 nx).toNat (indexOk_zeros nx hpos) (by rw [address_zeros]; rfl) (by omega) (by omega)
+  unfold allIndices
+  rw [this, List.range_eq_range']
+  simp [flatMap_single]
+
+theorem allIndices_length (nx : List Int) (hne : nx ≠ []) (hpos : ∀ n ∈ nx, 0 < n) :
+    (allIndices nx).length = (ntOf 1 nx).toNat := by
+  have := congrArg List.length (allIndices_map_address nx hne hpos)
+  simpa using this
+
+theorem allIndices_getElem? (nx : List Int) (hne : nx ≠ []) (hpos : ∀ n ∈ nx, 0 < n) (ix : List Int)
+    (hok : indexOk nx ix = true) : (allIndices nx)[(address 1 nx ix).toNat]? = some ix := by
+  obtain ⟨r0, r1⟩ := address_range' 1 Int.one_pos nx ix hok
+  have hlen := allIndices_length nx hne hpos
+  have ha : (address 1 nx ix).toNat < (allIndices nx).length := by omega
+  rw [List.getElem?_eq_getElem ha]
+  congr 1
+  have hmem : (allIndices nx)[(address 1 nx ix).toNat] ∈ allIndices nx := List.getElem_mem ha
+  have hok' := enumerate_ok nx _ _ _ hmem
+  apply address_inj' 1 Int.one_pos nx _ _ hok' hok
+  have h2 : address 1 nx (allIndices nx)[(address 1 nx ix).toNat] =
+      ((allIndices nx).map (address 1 nx))[(address 1 nx ix).toNat]'(by simpa using ha) := by simp
+  rw [h2]
+  simp only [allIndices_map_address nx hne hpos]
+  simp
+  omega
+
+theorem allIndices_map_getD {β : Type} (f : List Int → β) (d : β) (nx : List Int) (hne : nx ≠ [])
+    (hpos : ∀ n ∈ nx, 0 < n) (ix : List Int) (hok : indexOk nx ix = true) :
+    ((allIndices nx).map f).getD (address 1 nx ix).toNat d = f ix := by
+  rw [List.getD_eq_getElem?_getD, List.getElem?_map, allIndices_getElem? nx hne hpos ix hok]
+  rfl
+
+theorem zipWith_getD_add (a b : List ℝ) (k : Nat) (ha : k < a.length) (hb : k < b.length) :
+    (List.zipWith (· + ·) a b).getD k 0 = a.getD k 0 + b.getD k 0 := by
+  simp [List.getD_eq_getElem?_getD, List.getElem?_zipWith, List.getElem?_eq_getElem ha,
+    List.getElem?_eq_getElem hb]
+
+theorem flatMap_range_one {β γ : Type} (l : List β) (g : β → Nat → γ) :
+    (l.flatMap fun x => (List.range 1).map (g x)) = l.map (fun x => g x 0) := by
+  simp only [List.range_one, List.map_cons, List.map_nil]
+  exact flatMap_single (fun x => g x 0) l
+
+end
+
+/-! ## tabulation and re-indexing -/
+section
+open Cv.C15
+
+theorem projectHills_gridE (p : MetaParams ℝ) (s : MetaState ℝ) (hs : List (Hill ℝ)) :
+    (projectHills p s hs).gridE = List.zipWith (· + ·) s.gridE
+      ((allIndices s.g.nx).map fun ix => hillsEnergy p hs (binCenters s.g ix)) := rfl
+
+theorem projectHills_g (p : MetaParams ℝ) (s : MetaState ℝ) (hs : List (Hill ℝ)) :
+    (projectHills p s hs).g = s.g := rfl
+theorem projectHills_hills (p : MetaParams ℝ) (s : MetaState ℝ) (hs : List (Hill ℝ)) :
+    (projectHills p s hs).hills = s.hills := rfl
+
+theorem projectHills_gridE_length (p : MetaParams ℝ) (s : MetaState ℝ) (hs : List (Hill ℝ))
+    (hpos : ∀ n ∈ s.g.nx, 0 < n) (hne : s.g.nx ≠ []) (hlen : (s.gridE.length : Int) = ntOf 1 s.g.nx) :
+    ((projectHills p s hs).gridE.length : Int) = ntOf 1 s.g.nx := by
+  rw [projectHills_gridE, List.length_zipWith, List.length_map, allIndices_length _ hne hpos]
+  omega
+
+theorem project_adds' (p : MetaParams ℝ) (s : MetaState ℝ) (hs : List (Hill ℝ)) (ix : List Int)
+    (hpos : ∀ n ∈ s.g.nx, 0 < n) (hne : s.g.nx ≠ []) (hlen : (s.gridE.length : Int) = ntOf 1 s.g.nx)
+    (hok : indexOk s.g.nx ix = true) :
+    (projectHills p s hs).gridE.getD (address 1 s.g.nx ix).toNat 0 =
+      s.gridE.getD (address 1 s.g.nx ix).toNat 0 + hillsEnergy p hs (binCenters s.g ix) := by
+  obtain ⟨r0, r1⟩ := address_range' 1 Int.one_pos _ ix hok
+  rw [projectHills_gridE, zipWith_getD_add _ _ _ (by omega)
+    (by rw [List.length_map, allIndices_length _ hne hpos]; omega),
+    allIndices_map_getD _ _ _ hne hpos ix hok]
+
+theorem remap_exact' (oldNx newNx shift : List Int) (old : List ℝ) (ix : List Int)
+    (hpos : ∀ n ∈ newNx, 0 < n) (hne : newNx ≠ [])
+    (hok : indexOk newNx ix = true) :
+    (remapGrid 1 oldNx newNx shift old).getD (address 1 newNx ix).toNat 0 =
+      (if indexOk oldNx (List.zipWith (· - ·) ix shift) = true
+       then old.getD (address 1 oldNx (List.zipWith (· - ·) ix shift)).toNat 0 else 0) := by
+  unfold remapGrid
+  simp only []
+  rw [flatMap_range_one (allIndices newNx) (fun ix im =>
+      if indexOk oldNx (List.zipWith (· - ·) ix shift) then
+        old.getD ((address 1 oldNx (List.zipWith (· - ·) ix shift)).toNat * 1 + im) 0.0 else 0.0),
+    allIndices_map_getD _ _ _ hne hpos ix hok]
+  simp only [zero_lit, Nat.mul_one, Nat.add_zero]
+
+end
+
+/-! ## one `update()` decomposed -/
+
+/-- the hill deposited by a step (state `s1` after grid expansion) -/
+noncomputable def newHill (p : MetaParams ℝ) (c : Clock) (s1 : MetaState ℝ) (xs : List ℝ) : Hill ℝ :=
+  { it := c.it,
+    w := p.hillWeight * (if p.wellTempered then 1.0 * Prim.exp (-1.0 * wtEnergyHere p s1 xs / p.biasTempKB) else 1.0),
+    centers := xs, sigmas := p.sigmas }
+
+/-- is this a step at which the new hills are tabulated? -/
+def gridTime (p : MetaParams ℝ) (c : Clock) : Bool :=
+  p.useGrids && decide (p.gridsFreq > 0) && decide (Int.tmod c.it p.gridsFreq = 0)
+
+/-- `update_bias` -/
+noncomputable def afterDeposit (p : MetaParams ℝ) (c : Clock) (s1 : MetaState ℝ) (xs : List ℝ) : MetaState ℝ :=
+  if depositNow p c then
+    { s1 with hills := s1.hills ++ [newHill p c s1 xs], nNew := s1.nNew + 1,
+              offGrid := if p.useGrids && decide (binDistance p s1.g xs < ((3 * Prim.floorI p.hillWidth : Int) : ℝ) + 1.0)
+                 then s1.offGrid ++ [newHill p c s1 xs] else s1.offGrid }
+  else s1
+
+/-- `update_grid_data` -/
+noncomputable def afterGrid (p : MetaParams ℝ) (c : Clock) (s2 : MetaState ℝ) : MetaState ℝ :=
+  if gridTime p c then
+    { projectHills p s2 (newHills s2) with nNew := 0, hills := if p.keepHills then s2.hills else [] }
+  else s2
+
+theorem metaStep_fst (p : MetaParams ℝ) (c : Clock) (s : MetaState ℝ) (xs : List ℝ) :
+    (metaStep p c s xs).1 = afterGrid p c (afterDeposit p c (expandGrids p s xs) xs) := rfl
+
+theorem metaStep_snd (p : MetaParams ℝ) (c : Clock) (s : MetaState ℝ) (xs : List ℝ) :
+    (metaStep p c s xs).2 = (metaEnergy p (metaStep p c s xs).1 xs,
+      (List.range xs.length).map (metaForce p (metaStep p c s xs).1 xs)) := rfl
+
+noncomputable def stepDeposited (p : MetaParams ℝ) (t : MetaTrace ℝ) (c : Clock) (xs : List ℝ) : List (Hill ℝ) :=
+  if depositNow p c then t.deposited ++ [newHill p c (expandGrids p t.s xs) xs] else t.deposited
+
+/-- one step of `metaRun` -/
+noncomputable def stepTrace (p : MetaParams ℝ) (t : MetaTrace ℝ) (c : Clock) (xs : List ℝ) : MetaTrace ℝ :=
+  { s := (metaStep p c t.s xs).1,
+    energies := t.energies ++ [(metaStep p c t.s xs).2.1],
+    forces := t.forces ++ [(metaStep p c t.s xs).2.2],
+    deposited := stepDeposited p t c xs,
+    projected := if gridTime p c then stepDeposited p t c xs else t.projected }
+
+theorem metaRun_nil (p : MetaParams ℝ) (t : MetaTrace ℝ) : metaRun p t [] = t := rfl
+
+theorem metaRun_cons (p : MetaParams ℝ) (t : MetaTrace ℝ) (c : Clock) (xs : List ℝ) (rest : MetaHist ℝ) :
+    metaRun p t ((c, xs) :: rest) = metaRun p (stepTrace p t c xs) rest := rfl
+
+theorem metaRun_induction (p : MetaParams ℝ) (P : MetaTrace ℝ → Prop)
+    (hstep : ∀ t c xs, P t → P (stepTrace p t c xs)) :
+    ∀ (h : MetaHist ℝ) (t : MetaTrace ℝ), P t → P (metaRun p t h)
+  | [], t, ht => ht
+  | (c, xs) :: rest, t, ht => by
+    rw [metaRun_cons]
+    exact metaRun_induction p P hstep rest _ (hstep t c xs ht)
+
 end Cv.C05
